@@ -61,10 +61,11 @@ variable {C : Nat}
 def abs (m : Mat Nat C) : Tbl := ⟨m.rows, m.get⟩
 
 /-- the specification of one operation on the abstract table; `none` = the call panics -/
-def specStep (C : Nat) (t : Tbl) : Op → Option Tbl
-  | .new rows => some ⟨rows, fun _ _ => 0⟩
-  | .withCapacity rows _ => some ⟨rows, fun _ _ => 0⟩
-  | .resize n => some ⟨n, fun r c => if r < t.rows then t.cell r c else 0⟩   -- old rows kept, new rows default
+def specStep (C : Nat) (dflt : Nat) (t : Tbl) : Op → Option Tbl
+  | .new rows => some ⟨rows, fun _ _ => dflt⟩
+  | .withCapacity rows _ => some ⟨rows, fun _ _ => dflt⟩
+  | .resize n => some ⟨n, fun r c => if r < t.rows then t.cell r c else dflt⟩   -- old rows kept, new rows default
+  | .cloneFrom rows v => some ⟨rows, fun _ _ => v⟩
   | .fromRows rows =>
     if rows.all (·.length == C) then some ⟨rows.length, fun r c => (rows.getD r []).getD c 0⟩ else none
   | .fill v => some ⟨t.rows, fun _ _ => v⟩
@@ -146,8 +147,8 @@ theorem colZeroRev_get (v : Nat) (m : Mat Nat C) (hC : 0 < C) (n : Nat) (hn : n 
 /-- **C19, one step**: the concrete operation panics exactly when the specification says so, and
     otherwise yields the same table — row count as requested, rows that existed keep their contents,
     new rows hold the default value, writes land in the addressed cell only. -/
-theorem step_refines (m : Mat Nat C) (op : Op) :
-    match step m op, specStep C (abs m) op with
+theorem step_refines (dflt : Nat) (m : Mat Nat C) (op : Op) :
+    match step dflt m op, specStep C dflt (abs m) op with
     | .ok m', some t' => Tbl.Same C (abs m') t'
     | .error _, none => True
     | _, _ => False := by
@@ -166,7 +167,7 @@ theorem step_refines (m : Mat Nat C) (op : Op) :
     refine ⟨by simp [abs], ?_⟩
     intro r c hr hc
     have hr' : r < n := by simpa [abs] using hr
-    show (m.resize n 0).get r c = if r < m.rows then m.get r c else 0
+    show (m.resize n dflt).get r c = if r < m.rows then m.get r c else dflt
     rw [Mat.get_resize, if_pos hr']
     split
     · rfl
@@ -248,10 +249,16 @@ theorem step_refines (m : Mat Nat C) (op : Op) :
       · rw [if_pos ⟨by omega, hr', hc0⟩, if_pos hc0]
       · rw [if_neg (fun h => hc0 h.2.2), if_neg hc0]
   | clone => exact ⟨rfl, fun _ _ _ _ => rfl⟩
+  | cloneFrom rows v =>
+    refine ⟨by simp [abs, step], ?_⟩
+    intro r c hr hc
+    have hr' : r < rows := by simpa [abs, step] using hr
+    show (((Mat.empty : Mat Nat C).resize rows dflt).fill v).get r c = v
+    rw [Mat.get_fill, if_pos ⟨by simpa using hr', hc⟩]
 
 /-- the specification respects table equality (so the refinement composes along a history) -/
-theorem specStep_congr (a b : Tbl) (h : Tbl.Same C a b) (op : Op) :
-    match specStep C a op, specStep C b op with
+theorem specStep_congr (dflt : Nat) (a b : Tbl) (h : Tbl.Same C a b) (op : Op) :
+    match specStep C dflt a op, specStep C dflt b op with
     | some a', some b' => Tbl.Same C a' b'
     | none, none => True
     | _, _ => False := by
@@ -318,33 +325,34 @@ theorem specStep_congr (a b : Tbl) (h : Tbl.Same C a b) (op : Op) :
       · rfl
       · exact hc r c hrr hcc
   | clone => exact ⟨hr, hc⟩
+  | cloneFrom rows v => exact ⟨rfl, fun _ _ _ _ => rfl⟩
 
 /-- run the specification along an operation list (a panicking operation changes nothing) -/
-def specRun (C : Nat) (t : Tbl) : List Op → Tbl
+def specRun (C : Nat) (dflt : Nat) (t : Tbl) : List Op → Tbl
   | [] => t
-  | op :: ops => match specStep C t op with
-    | some t' => specRun C t' ops
-    | none => specRun C t ops
+  | op :: ops => match specStep C dflt t op with
+    | some t' => specRun C dflt t' ops
+    | none => specRun C dflt t ops
 
 /-- **C19, histories**: after ANY finite sequence of creations, resizes, fills, row and cell
     writes, iter_mut passes and clones (panicking calls included), the matrix is the table the
     specification prescribes. -/
-theorem run_refines (ops : List Op) (m : Mat Nat C) (t : Tbl) (h : Tbl.Same C (abs m) t) :
-    Tbl.Same C (abs (run m ops)) (specRun C t ops) := by
+theorem run_refines (dflt : Nat) (ops : List Op) (m : Mat Nat C) (t : Tbl) (h : Tbl.Same C (abs m) t) :
+    Tbl.Same C (abs (run dflt m ops)) (specRun C dflt t ops) := by
   induction ops generalizing m t with
   | nil => exact h
   | cons op ops ih =>
-    have h1 := step_refines m op
-    have h2 := specStep_congr (abs m) t h op
+    have h1 := step_refines dflt m op
+    have h2 := specStep_congr dflt (abs m) t h op
     simp only [run, specRun]
-    cases hs : step m op with
+    cases hs : step dflt m op with
     | ok m' =>
       rw [hs] at h1
-      cases ha : specStep C (abs m) op with
+      cases ha : specStep C dflt (abs m) op with
       | none => rw [ha] at h1; exact absurd h1 (by simp)
       | some a' =>
         rw [ha] at h1 h2
-        cases hb : specStep C t op with
+        cases hb : specStep C dflt t op with
         | none => rw [hb] at h2; exact absurd h2 (by simp)
         | some b' =>
           rw [hb] at h2
@@ -353,11 +361,11 @@ theorem run_refines (ops : List Op) (m : Mat Nat C) (t : Tbl) (h : Tbl.Same C (a
             (h1.2 r c hr hc).trans (h2.2 r c (by rw [← h1.1]; exact hr) hc)⟩
     | error e =>
       rw [hs] at h1
-      cases ha : specStep C (abs m) op with
+      cases ha : specStep C dflt (abs m) op with
       | some a' => rw [ha] at h1; exact absurd h1 (by simp)
       | none =>
         rw [ha] at h2
-        cases hb : specStep C t op with
+        cases hb : specStep C dflt t op with
         | some b' => rw [hb] at h2; exact absurd h2 (by simp)
         | none => simp only; exact ih m t h
 
@@ -373,7 +381,7 @@ theorem iter_order (m : Mat Nat C) :
   Mat.toLists_eq_get m
 
 /-! non-vacuity -/
-example : (run (Mat.empty : Mat Nat 5) [.new 3, .setCell 1 2 7, .resize 5, .setCell 9 0 1, .resize 2]).toLists
+example : (run 0 (Mat.empty : Mat Nat 5) [.new 3, .setCell 1 2 7, .resize 5, .setCell 9 0 1, .resize 2]).toLists
     = [[0, 0, 0, 0, 0], [0, 0, 7, 0, 0]] := by decide
 
 end C19
